@@ -53,11 +53,13 @@ def elem_eq(e, x, y):
         return tx == ty
     key = (tx if type(tx) is int else tx.get_id(), ty if type(ty) is int else ty.get_id())
     memo = e.path_memo
-    r = memo.get(key)
-    if r is None:
+    ent = memo.get(key)
+    if ent is None:
         r = e.truth(e.binop('Eq', Int(tx, x.bits), Int(ty, y.bits)))
-        memo[key] = r; memo[(key[1], key[0])] = r
-    return r
+        # keep the terms alive: z3 AST ids are only unique among live terms
+        memo[key] = (r, tx, ty); memo[(key[1], key[0])] = (r, tx, ty)
+        return r
+    return ent[0]
 
 
 def pats_equal(e, p, q):
